@@ -52,7 +52,35 @@ fn thresholds(_t: Tier) -> Vec<(&'static str, u64)> {
     ]
 }
 
+/// Hand-written pairs (canonical, rewritten, width) run as the first cases.
+const PROBES: [(&str, &str, usize); 4] = [
+    ("<blockquote>a b</blockquote>", "<blockquote>a <!--c-->b</blockquote>", 4),
+    ("<p>x<sup>12</sup></p>", "<p>x<sup><span>12</span></sup></p>", 20),
+    ("<p>Hello <em>big</em> world</p>", "<p>Hello\n\t<em>big</em>   world</p>", 9),
+    ("<div><p>a</p><p>b</p></div>", "<div>\n  <p>a</p>\n  <!-- gap -->\n  <p>b</p>\n</div>", 10),
+];
+
+fn run_probe(idx: u64, out: &mut CaseOut) {
+    let (base, variant, w) = PROBES[idx as usize];
+    out.inc("probes");
+    for cfg in [Cfg::plain(), Cfg::rich()] {
+        let a = render_string(&cfg, base.as_bytes(), w);
+        let b = render_string(&cfg, variant.as_bytes(), w);
+        out.evals += 2;
+        out.inc("pairs_compared");
+        if a.is_total() && b.is_total() && a != b {
+            let doc: Vec<ast::Node> = Vec::new();
+            report(out, "probe", &doc, base.as_bytes(), variant.as_bytes(), w, &cfg, &a.kind_or_text(), &b.kind_or_text());
+            return;
+        }
+    }
+}
+
 fn run_case(seed: u64, idx: u64, _tier: Tier, out: &mut CaseOut) {
+    if (idx as usize) < PROBES.len() {
+        run_probe(idx, out);
+        return;
+    }
     let mut rng = Rng::for_case(seed, "C13", idx);
     let mut p = Profile::full().no_tables().no_pre();
     p.max_depth = 5;
@@ -167,7 +195,18 @@ fn report(
     // classify: does the difference involve struck-out text?
     let strike = (ast::has_tag(doc, "s") || ast::has_tag(doc, "del"))
         && (a.contains('\u{336}') || b.contains('\u{336}'));
-    let sig = if strike {
+    let too_narrow = (a == "TooNarrow") != (b == "TooNarrow");
+    let sup_digits = {
+        let s = String::from_utf8_lossy(base);
+        s.contains("<sup>") && (a.chars().any(|c| "⁰¹²³⁴⁵⁶⁷⁸⁹".contains(c)) != b.chars().any(|c| "⁰¹²³⁴⁵⁶⁷⁸⁹".contains(c)))
+    };
+    let sig = if too_narrow {
+        // size estimates are per text node: splitting a text node can change
+        // whether a prefixed block is considered too narrow
+        "ws-dependent:too-narrow-differs".to_string()
+    } else if sup_digits {
+        "ws-dependent:digit-superscript-through-span".to_string()
+    } else if strike {
         "ws-dependent:inside-strikeout".to_string()
     } else {
         format!("ws-dependent:{}", kind)
